@@ -15,81 +15,125 @@
 #![allow(clippy::all)]
 use core::ops::{Deref, DerefMut};
 
-#[derive(Clone, Copy, PartialEq, Eq, Default, Hash, PartialOrd, Ord)]
+/// The view is stored as a *raw* fat pointer on purpose: a reference would give `Bytes` a niche
+/// (non-null), rustc would then encode the discriminant of enums such as poster's `Property` or
+/// `RxPacket` in that pointer, and CBMC's symbolic execution cannot decide pointer-valued
+/// discriminants, which turns every `match` on such an enum into a full case split.
+#[derive(Clone, Copy)]
 pub struct Bytes {
-    data: &'static [u8],
+    data: *const [u8],
+}
+unsafe impl Send for Bytes {}
+unsafe impl Sync for Bytes {}
+
+impl Default for Bytes {
+    fn default() -> Self {
+        Bytes::new()
+    }
+}
+impl PartialEq for Bytes {
+    fn eq(&self, o: &Bytes) -> bool {
+        self.s() == o.s()
+    }
+}
+impl Eq for Bytes {}
+impl PartialOrd for Bytes {
+    fn partial_cmp(&self, o: &Bytes) -> Option<core::cmp::Ordering> {
+        self.s().partial_cmp(o.s())
+    }
+}
+impl Ord for Bytes {
+    fn cmp(&self, o: &Bytes) -> core::cmp::Ordering {
+        self.s().cmp(o.s())
+    }
+}
+impl core::hash::Hash for Bytes {
+    fn hash<H: core::hash::Hasher>(&self, h: &mut H) {
+        self.s().hash(h)
+    }
 }
 
 impl core::fmt::Debug for Bytes {
     fn fmt(&self, f: &mut core::fmt::Formatter<'_>) -> core::fmt::Result {
-        core::fmt::Debug::fmt(self.data, f)
+        core::fmt::Debug::fmt(self.s(), f)
     }
 }
 
+const EMPTY: &[u8] = &[];
+
 impl Bytes {
+    #[inline]
+    fn s(&self) -> &'static [u8] {
+        // SAFETY: `data` always comes from a `&'static [u8]` (static or leaked memory).
+        unsafe { &*self.data }
+    }
+    #[inline]
+    const fn of(s: &'static [u8]) -> Bytes {
+        Bytes { data: s as *const [u8] }
+    }
     pub const fn new() -> Self {
-        Bytes { data: &[] }
+        Bytes::of(EMPTY)
     }
     pub const fn from_static(s: &'static [u8]) -> Self {
-        Bytes { data: s }
+        Bytes::of(s)
     }
     pub fn copy_from_slice(s: &[u8]) -> Self {
-        Bytes { data: Box::leak(s.to_vec().into_boxed_slice()) }
+        Bytes::of(Box::leak(s.to_vec().into_boxed_slice()))
     }
-    pub const fn len(&self) -> usize {
-        self.data.len()
+    pub fn len(&self) -> usize {
+        self.s().len()
     }
-    pub const fn is_empty(&self) -> bool {
-        self.data.is_empty()
+    pub fn is_empty(&self) -> bool {
+        self.s().is_empty()
     }
     pub fn split_to(&mut self, at: usize) -> Bytes {
-        assert!(at <= self.data.len(), "split_to out of bounds: {:?} <= {:?}", at, self.data.len());
-        let (a, b) = self.data.split_at(at);
+        assert!(at <= self.len(), "split_to out of bounds: {:?} <= {:?}", at, self.len());
+        let (a, b) = self.s().split_at(at);
         self.data = b;
-        Bytes { data: a }
+        Bytes::of(a)
     }
     pub fn split_off(&mut self, at: usize) -> Bytes {
-        assert!(at <= self.data.len(), "split_off out of bounds: {:?} <= {:?}", at, self.data.len());
-        let (a, b) = self.data.split_at(at);
+        assert!(at <= self.len(), "split_off out of bounds: {:?} <= {:?}", at, self.len());
+        let (a, b) = self.s().split_at(at);
         self.data = a;
-        Bytes { data: b }
+        Bytes::of(b)
     }
     pub fn slice(&self, r: core::ops::Range<usize>) -> Bytes {
-        Bytes { data: &self.data[r] }
+        Bytes::of(&self.s()[r])
     }
     pub fn truncate(&mut self, n: usize) {
-        if n < self.data.len() {
-            self.data = &self.data[..n];
+        if n < self.len() {
+            self.data = &self.s()[..n];
         }
     }
     pub fn clear(&mut self) {
-        self.data = &[];
+        self.data = EMPTY;
     }
 }
 impl Deref for Bytes {
     type Target = [u8];
     fn deref(&self) -> &[u8] {
-        self.data
+        self.s()
     }
 }
 impl AsRef<[u8]> for Bytes {
     fn as_ref(&self) -> &[u8] {
-        self.data
+        self.s()
     }
 }
 impl core::borrow::Borrow<[u8]> for Bytes {
     fn borrow(&self) -> &[u8] {
-        self.data
+        self.s()
     }
 }
 impl From<Vec<u8>> for Bytes {
     fn from(v: Vec<u8>) -> Self {
-        Bytes { data: Box::leak(v.into_boxed_slice()) }
+        Bytes::of(Box::leak(v.into_boxed_slice()))
     }
 }
 impl From<Box<[u8]>> for Bytes {
     fn from(v: Box<[u8]>) -> Self {
-        Bytes { data: Box::leak(v) }
+        Bytes::of(Box::leak(v))
     }
 }
 impl From<String> for Bytes {
@@ -99,12 +143,12 @@ impl From<String> for Bytes {
 }
 impl From<&'static [u8]> for Bytes {
     fn from(v: &'static [u8]) -> Self {
-        Bytes { data: v }
+        Bytes::of(v)
     }
 }
 impl From<&'static str> for Bytes {
     fn from(v: &'static str) -> Self {
-        Bytes { data: v.as_bytes() }
+        Bytes::of(v.as_bytes())
     }
 }
 impl From<BytesMut> for Bytes {
@@ -114,71 +158,71 @@ impl From<BytesMut> for Bytes {
 }
 impl PartialEq<[u8]> for Bytes {
     fn eq(&self, o: &[u8]) -> bool {
-        self.data == o
+        self.s() == o
     }
 }
 impl PartialEq<&[u8]> for Bytes {
     fn eq(&self, o: &&[u8]) -> bool {
-        self.data == *o
+        self.s() == *o
     }
 }
 impl PartialEq<Bytes> for [u8] {
     fn eq(&self, o: &Bytes) -> bool {
-        self == o.data
+        self == o.s()
     }
 }
 impl PartialEq<Bytes> for &[u8] {
     fn eq(&self, o: &Bytes) -> bool {
-        *self == o.data
+        *self == o.s()
     }
 }
 impl<const N: usize> PartialEq<[u8; N]> for Bytes {
     fn eq(&self, o: &[u8; N]) -> bool {
-        self.data == &o[..]
+        self.s() == &o[..]
     }
 }
 impl<const N: usize> PartialEq<&[u8; N]> for Bytes {
     fn eq(&self, o: &&[u8; N]) -> bool {
-        self.data == &o[..]
+        self.s() == &o[..]
     }
 }
 impl PartialEq<Vec<u8>> for Bytes {
     fn eq(&self, o: &Vec<u8>) -> bool {
-        self.data == &o[..]
+        self.s() == &o[..]
     }
 }
 impl PartialEq<Bytes> for Vec<u8> {
     fn eq(&self, o: &Bytes) -> bool {
-        &self[..] == o.data
+        &self[..] == o.s()
     }
 }
 impl PartialEq<str> for Bytes {
     fn eq(&self, o: &str) -> bool {
-        self.data == o.as_bytes()
+        self.s() == o.as_bytes()
     }
 }
 impl PartialEq<&str> for Bytes {
     fn eq(&self, o: &&str) -> bool {
-        self.data == o.as_bytes()
+        self.s() == o.as_bytes()
     }
 }
 impl PartialEq<BytesMut> for Bytes {
     fn eq(&self, o: &BytesMut) -> bool {
-        self.data == &o[..]
+        self.s() == &o[..]
     }
 }
 impl IntoIterator for Bytes {
     type Item = u8;
     type IntoIter = core::iter::Copied<core::slice::Iter<'static, u8>>;
     fn into_iter(self) -> Self::IntoIter {
-        self.data.iter().copied()
+        self.s().iter().copied()
     }
 }
 impl<'a> IntoIterator for &'a Bytes {
     type Item = &'a u8;
     type IntoIter = core::slice::Iter<'a, u8>;
     fn into_iter(self) -> Self::IntoIter {
-        self.data.iter()
+        self.s().iter()
     }
 }
 
@@ -231,19 +275,19 @@ pub trait Buf {
 }
 impl Buf for Bytes {
     fn remaining(&self) -> usize {
-        self.data.len()
+        self.len()
     }
     fn chunk(&self) -> &[u8] {
-        self.data
+        self.s()
     }
     fn advance(&mut self, cnt: usize) {
         assert!(
-            cnt <= self.data.len(),
+            cnt <= self.len(),
             "cannot advance past `remaining`: {:?} <= {:?}",
             cnt,
-            self.data.len()
+            self.len()
         );
-        self.data = &self.data[cnt..];
+        self.data = &self.s()[cnt..];
     }
     fn copy_to_bytes(&mut self, len: usize) -> Bytes {
         self.split_to(len)
@@ -287,11 +331,13 @@ pub trait BufMut {
     }
 }
 
-#[cfg(feature = "cap_big")]
+#[cfg(feature = "cap_huge")]
 pub const CAP: usize = 2304;
-#[cfg(all(feature = "cap_mid", not(feature = "cap_big")))]
+#[cfg(all(feature = "cap_big", not(feature = "cap_huge")))]
 pub const CAP: usize = 1152;
-#[cfg(not(any(feature = "cap_big", feature = "cap_mid")))]
+#[cfg(all(feature = "cap_mid", not(any(feature = "cap_big", feature = "cap_huge"))))]
+pub const CAP: usize = 192;
+#[cfg(not(any(feature = "cap_mid", feature = "cap_big", feature = "cap_huge")))]
 pub const CAP: usize = 96;
 
 #[derive(Clone)]
@@ -387,7 +433,7 @@ impl BytesMut {
     pub fn freeze(self) -> Bytes {
         let (start, len) = (self.start, self.len);
         let leaked: &'static BytesMut = Box::leak(Box::new(self));
-        Bytes { data: &leaked.buf[start..start + len] }
+        Bytes::of(&leaked.buf[start..start + len])
     }
     pub fn split(&mut self) -> BytesMut {
         let r = BytesMut { buf: self.buf, start: self.start, len: self.len, hw: self.hw };
@@ -486,6 +532,6 @@ impl PartialEq<Vec<u8>> for BytesMut {
 }
 impl PartialEq<Bytes> for BytesMut {
     fn eq(&self, o: &Bytes) -> bool {
-        &self[..] == o.data
+        &self[..] == o.s()
     }
 }
